@@ -295,6 +295,13 @@ func (d *Cluster) applyLocked(ev MigEv) bool {
 		}
 		d.owner[ev.Slot] = int16(ev.Dst)
 		d.trace = append(d.trace, fmt.Sprintf("v:%d:%d", ev.Slot, ev.Dst))
+	case "h": // session 5 (C19, dimension audit): the slot becomes UNASSIGNED (a hole in the slot map: `CLUSTER DELSLOTS`, a failed
+		// master without a replica); every node answers -CLUSTERDOWN for it, CLUSTER SLOTS leaves it out
+		if _, ok := d.mig[ev.Slot]; ok || d.owner[ev.Slot] < 0 {
+			return false
+		}
+		d.owner[ev.Slot] = -1
+		d.trace = append(d.trace, fmt.Sprintf("h:%d", ev.Slot))
 	case "p": // session 5 (C19): release the parked CLUSTER SLOTS request NOW (at a request count: while a batch is in
 		// flight); the refresh goroutine of the client gets its reply (trace token `r` when it is computed) and installs it
 		if d.parked == nil {
@@ -387,7 +394,9 @@ func (d *Cluster) slotsReplyLocked() string {
 	start := 0
 	for s := 1; s <= 16384; s++ {
 		if s == 16384 || d.owner[s] != d.owner[start] {
-			rs = append(rs, rng{start, s - 1, int(d.owner[start])})
+			if d.owner[start] >= 0 { // an unassigned range is not listed
+				rs = append(rs, rng{start, s - 1, int(d.owner[start])})
+			}
 			start = s
 		}
 	}
@@ -487,6 +496,9 @@ func (d *Cluster) decideLocked(node int, keys []string, asking bool) (string, st
 		}
 	}
 	own := int(d.owner[slot])
+	if own < 0 {
+		return "e", "-CLUSTERDOWN Hash slot not served\r\n"
+	}
 	dst, migrating := d.mig[slot]
 	moved := 0
 	for _, k := range keys {
